@@ -53,6 +53,10 @@ fn stages() -> Vec<Op1> {
   v.extend([
     Op1::Finalize,
     Op1::BoxIt,
+    // stages that let nothing through any more by the time the stream is ended
+    // by another path (a notifier): they still have to pass the question on
+    Op1::Filter(P::Lt1),
+    Op1::FilterMap(P::Lt1),
     // still skipping when the stream is ended by another path
     Op1::Skip(5),
     Op1::SkipLast(5),
